@@ -190,12 +190,32 @@ func (w *world) readFields(e ev, r ociregistry.BlobReader, wantSlice bool) {
 // step executes one op against the top of the stack and records the event.  A panic in
 // the code under test is recorded as an event of its own (no specification has such an
 // action, so the trace is rejected there).
-func (w *world) step(ctx context.Context, op Op) {
+// hangTimeout: a call that has not returned after this long is recorded as hung (nothing in these
+// harnesses blocks on anything but the code under test; the longest honest call takes a few seconds on a
+// loaded machine).
+const hangTimeout = 120 * time.Second
+
+// step reports false when the call did not return: a "hang" event is recorded (no specification has such
+// an action) and the world must not be used any more.
+func (w *world) step(ctx context.Context, op Op) bool {
 	w.opNo++
 	if w.setOp != nil {
 		w.setOp(w.opNo)
 	}
-	w.emit(w.exec(ctx, op))
+	done := make(chan ev, 1)
+	go func() { done <- w.exec(ctx, op) }()
+	select {
+	case e := <-done:
+		w.emit(e)
+		return true
+	case <-time.After(hangTimeout):
+		e := opEvent(op)
+		e["op"] = "hang"
+		e["inop"] = op.Op
+		e["direct"] = w.direct
+		w.out.Encode(e)
+		return false
+	}
 }
 
 // getWriter / setWriter guard the handle tables (concurrent drivers share them).
